@@ -190,3 +190,10 @@ package filters
 //@ func CCITTFaxDecode results (res, err)
 //@   property C05
 //@   flags pure, trusted
+
+// ---- C05: a decode parameter that is present as an integer is taken as it is - an explicit 0 included (it is then
+// refused by the geometry and predictor guards, never replaced by the default) ----
+//@ func getIntParam results (r)
+//@   property C05
+//@   flags inline
+//@   ensures integer_value_is_taken_as_it_is: has(params, key) && istype(params[key], int) ==> r == astype(params[key], int)
